@@ -224,14 +224,15 @@ def check_bisect(ctx, w):
     sites = _bisect_sites(g.node)
     ctx.ob('J-BISECT', g.construct, 'bisect_right on the offsets map', len(sites) == 1 and sites[0].func.id == 'bisect_right' and
            expr.nfs(sites[0].args[0], genv) == '_cu_offsets_map' and expr.nfs(sites[0].args[1], genv) == 'offset')
-    ifs = [n for n in g.node.body if isinstance(n, ast.If)]
-    ok = len(ifs) == 1 and expr.cond_str(ifs[0].test, genv) == expr.spec_cond('i >= 1 and offset == _cu_offsets_map[i - 1]') and \
-        [U(s) for s in ifs[0].body] == ['return self._cu_cache[i - 1]']
-    ctx.ob('J-BISECT', g.construct, 'hit test keys[i-1] == offset under i >= 1, value from the parallel list at the same index', ok,
-           got=expr.cond_str(ifs[0].test, genv) if ifs else None)
-    ins = [U(s) for s in g.node.body if isinstance(s, ast.Expr) and not isinstance(s.value, ast.Constant)]
-    ctx.ob('J-BISECT', g.construct, 'both parallel lists inserted at the bisect index', ins == ['self._cu_offsets_map.insert(i, offset)', 'self._cu_cache.insert(i, cu)'], got=ins,
-           msg='the key list and the object list must be updated together at the same index')
+    # hit test under a guarded probe, value from the parallel list at the same index, miss inserts both lists at the bisect index:
+    # the path-based paired-cache rule of C10 (shared)
+    from props import C10
+    ci = w.model.cls('DWARFInfo', DI)
+    asg = [st for st in ast.walk(g.node) if isinstance(st, ast.Assign) and isinstance(st.value, ast.Call) and isinstance(st.value.func, ast.Name) and
+           st.value.func.id.startswith('bisect') and isinstance(st.targets[0], ast.Name)]
+    ctx.ob('J-BISECT', g.construct, 'one bisect site', len(asg) == 1)
+    if len(asg) == 1:
+        C10._pair_site(ctx, w, ci, g, asg[0], '_cu_offsets_map', '_cu_cache')
     tr = expr.assign_trace(g.node, genv)
     ctx.ob('J-BISECT', g.construct, 'miss parses the unit at the offset', tr.get('cu') == [('=', '_parse_CU_at_offset(self,offset)')], got=tr.get('cu'))
     h = w.model.func(DI, 'DWARFInfo.get_CU_containing')
